@@ -89,6 +89,123 @@ theorem isort_unique_on (le : α → α → Bool)
   · exact isort_sorted le trans total l₂
   · exact ((isort_perm le l₁).trans h).trans (isort_perm le l₂).symm
 
+/-- the sorting lemmas with transitivity and antisymmetry required only on the items that
+    satisfy a predicate `P` (the NaN-free hash keys), all visited items satisfying it -/
+theorem insertBy_sorted_on (le : α → α → Bool) (P : α → Prop)
+    (trans : ∀ a b c, P a → P b → P c → le a b = true → le b c = true → le a c = true)
+    (total : ∀ a b, (le a b || le b a) = true) (a : α) (l : List α)
+    (ha : P a) (hl : ∀ x ∈ l, P x)
+    (h : l.Pairwise (fun x y => le x y = true)) :
+    (insertBy le a l).Pairwise (fun x y => le x y = true) := by
+  induction l with
+  | nil => simp [insertBy]
+  | cons b l ih =>
+    have hb := List.pairwise_cons.1 h
+    have hPb : P b := hl b (List.mem_cons_self ..)
+    have hPl : ∀ x ∈ l, P x := fun x hx => hl x (List.mem_cons_of_mem _ hx)
+    unfold insertBy
+    split
+    · rename_i hab
+      refine List.pairwise_cons.2 ⟨?_, h⟩
+      intro x hx
+      cases hx with
+      | head => exact hab
+      | tail _ hx => exact trans a b x ha hPb (hPl x hx) hab (hb.1 x hx)
+    · rename_i hab
+      have hba : le b a = true := by
+        have := total a b
+        simp only [Bool.or_eq_true] at this
+        cases this with
+        | inl h => exact absurd h hab
+        | inr h => exact h
+      refine List.pairwise_cons.2 ⟨?_, ih hPl hb.2⟩
+      intro x hx
+      have : x ∈ a :: l := (insertBy_perm le a l).mem_iff.1 hx
+      cases this with
+      | head => exact hba
+      | tail _ hx => exact hb.1 x hx
+
+theorem isort_sorted_on (le : α → α → Bool) (P : α → Prop)
+    (trans : ∀ a b c, P a → P b → P c → le a b = true → le b c = true → le a c = true)
+    (total : ∀ a b, (le a b || le b a) = true) (l : List α) (hl : ∀ x ∈ l, P x) :
+    (isort le l).Pairwise (fun x y => le x y = true) := by
+  induction l with
+  | nil => simp [isort]
+  | cons a l ih =>
+    have hPl : ∀ x ∈ l, P x := fun x hx => hl x (List.mem_cons_of_mem _ hx)
+    exact insertBy_sorted_on le P trans total a _ (hl a (List.mem_cons_self ..))
+      (fun x hx => hPl x ((isort_perm le l).mem_iff.1 hx)) (ih hPl)
+
+theorem isort_unique_pred (le : α → α → Bool) (P : α → Prop)
+    (trans : ∀ a b c, P a → P b → P c → le a b = true → le b c = true → le a c = true)
+    (total : ∀ a b, (le a b || le b a) = true)
+    (antisymm : ∀ a b, P a → P b → le a b = true → le b a = true → a = b)
+    {l₁ l₂ : List α} (h : l₁.Perm l₂) (hl : ∀ x ∈ l₁, P x) :
+    isort le l₁ = isort le l₂ := by
+  have hl2 : ∀ x ∈ l₂, P x := fun x hx => hl x (h.mem_iff.2 hx)
+  apply List.Perm.eq_of_pairwise (le := fun x y => le x y = true)
+  · intro a b ha hb h1 h2
+    exact antisymm a b (hl a ((isort_perm le l₁).mem_iff.1 ha)) (hl2 b ((isort_perm le l₂).mem_iff.1 hb)) h1 h2
+  · exact isort_sorted_on le P trans total l₁ hl
+  · exact isort_sorted_on le P trans total l₂ hl2
+  · exact ((isort_perm le l₁).trans h).trans (isort_perm le l₂).symm
+
+/-! ### the comparator of `Set.SortedItems` on NaN-free hash keys is a strict total order -/
+
+theorem slt_tri (a b : String) : a < b ∨ a = b ∨ b < a := by
+  by_cases h1 : a < b
+  · exact Or.inl h1
+  · by_cases h2 : b < a
+    · exact Or.inr (Or.inr h2)
+    · exact Or.inr (Or.inl (String.le_antisymm (a := a) (b := b) h2 h1))
+
+/-- negative transitivity: if `a` sorts before `c`, every NaN-free `b` sorts after `a` or before `c` -/
+theorem hkLess_negTrans (a b c : HKey) (hb : b.nan = false) (h : hkLess a c = true) :
+    hkLess a b = true ∨ hkLess b c = true := by
+  have t1 := slt_tri a.ty b.ty
+  have t2 := slt_tri b.ty c.ty
+  have t3 := slt_tri a.str b.str
+  have t4 := slt_tri b.str c.str
+  have tr := @String.lt_trans
+  have ir := String.lt_irrefl
+  unfold hkLess at *
+  grind
+
+theorem hkLess_asymm (a b : HKey) (h : hkLess a b = true) : hkLess b a = false := by
+  have tr := @String.lt_trans
+  have ir := String.lt_irrefl
+  unfold hkLess at *
+  grind
+
+/-- two NaN-free keys neither of which sorts before the other are the same key: the
+    comparator looks at EVERY field of the hash key -/
+theorem hkLess_incomp (a b : HKey) (ha : a.nan = false) (hb : b.nan = false)
+    (h1 : hkLess a b = false) (h2 : hkLess b a = false) : a = b := by
+  have t1 := slt_tri a.ty b.ty
+  have t3 := slt_tri a.str b.str
+  have : a.ty = b.ty ∧ a.int = b.int ∧ a.str = b.str ∧ a.flt = b.flt := by
+    unfold hkLess at *
+    grind
+  cases a; cases b; simp_all
+
+theorem hkGe_total (a b : HKey) : (hkGe a b || hkGe b a) = true := by
+  unfold hkGe
+  cases h : hkLess a b
+  · simp
+  · simp [hkLess_asymm a b h]
+
+theorem hkGe_trans (a b c : HKey) (_ : a.nan = false) (hb : b.nan = false) (_ : c.nan = false)
+    (h1 : hkGe a b = true) (h2 : hkGe b c = true) : hkGe a c = true := by
+  unfold hkGe at *
+  cases h : hkLess a c
+  · rfl
+  · rcases hkLess_negTrans a b c hb h with h' | h' <;> simp [h'] at h1 h2
+
+theorem hkGe_antisymm (a b : HKey) (ha : a.nan = false) (hb : b.nan = false)
+    (h1 : hkGe a b = true) (h2 : hkGe b a = true) : a = b := by
+  unfold hkGe at *
+  exact hkLess_incomp a b ha hb (by simpa using h1) (by simpa using h2)
+
 theorem sle_trans : ∀ a b c, sle a b = true → sle b c = true → sle a c = true := by
   intro a b c h1 h2
   simp only [sle, decide_eq_true_eq] at *
